@@ -90,7 +90,7 @@ theorem eval_noUndef (env : Env N) (e : Expr N) : VarsBound env e → NoUndef (e
     obtain ⟨a1, a2⟩ := a
     cases a1 with
     | ok vs => cases hn
-    | error e => exact this hn
+    | error e => simp only at hn this; cases hn; exact this rfl
   · intro v _ n hn; cases hn
   · intro x h n hn
     simp only [VarsBound] at h
@@ -106,7 +106,7 @@ theorem eval_noUndef (env : Env N) (e : Expr N) : VarsBound env e → NoUndef (e
     obtain ⟨a1, a2⟩ := a
     cases a1 with
     | ok vs => simp only at hn; cases hc : env.call f vs <;> rw [hc] at hn <;> cases hn
-    | error e => exact this hn
+    | error e => simp only at hn this; cases hn; exact this rfl
   · intro _ n hn; cases hn
   · intro e es ihe ihes h n hn
     simp only [VarsBoundL] at h
@@ -120,8 +120,8 @@ theorem eval_noUndef (env : Env N) (e : Expr N) : VarsBound env e → NoUndef (e
     | ok v =>
       cases b1 with
       | ok vs => cases hn
-      | error e' => exact h2 hn
-    | error e' => exact h1 hn
+      | error e' => simp only at hn h2; exact h2 hn
+    | error e' => simp only at hn h1; cases hn; exact h1 rfl
 
 /-! ### every context is monotone for ⊑ -/
 
